@@ -43,6 +43,18 @@ FIXED = [
  ("C19", "c19:unicode-map-differs (write_cmap)", "write_cmap separates bfrange array elements with white-space", "write_cmap wrote '[<0041>, <0042>]': the reader stopped at the first range"),
  ("C12", "c12:cache-visible:object-cache-only:get<*>-after-[..get<other type>..]", "a cached load error for one type must not be returned for another type", "get::<XObject>(3) then get::<Primitive>(3): cached document returned the first call's MissingEntry error"),
  ("C12", "c12:cache-visible:stream-cache-only:raw_image_data/Stream::data", "raw_image_data must not put partially decoded data into the stream cache", "jpeg.pdf obj 7: Stream::data then raw_image_data returned the fully decoded 786432 bytes instead of the 14562-byte JPEG (and vice versa)"),
+ ("C01", "resource:total-allocation-out-of-proportion (LZW)", "LZW decoding must not allocate a 16 MiB scratch buffer", "every LZW stream, however small, allocated a 16 MiB buffer: 134 MB allocated to read a 3.6 KB file with 8 tiny LZW streams"),
+ ("C14", "panic:pdf/src/object/function.rs:<pdf::object::function::Function as pdf::object::FromDict>::from_dict:index out of bounds*", "malformed function dictionaries are errors, not panics", "/Domain with fewer than two numbers indexed; PostScript function without /Range unwrapped; /Size 0 underflowed"),
+ ("C14", "panic:pdf/src/object/function.rs:pdf::object::function::SampledFunction::apply*", "sampled functions check sample positions", "sample positions from /Encode x input sliced the table unchecked; /Order 3 hit unimplemented!()"),
+ ("C14", "panic:pdf/src/object/function.rs:pdf::object::function::PsFunc::*", "PostScript calculator: roll and the program braces are checked", "roll with n > stack or j > n panicked; '}{' sliced backwards"),
+ ("C14", "panic:pdf/src/font.rs:pdf::font::Font::widths:*", "Font::widths validates the W array", "empty /DescendantFonts indexed; 'c1 c2 w' with negative c2 looped and allocated without bound"),
+ ("C14", "crash:signal6:stack-overflow (name/number tree)", "name and number tree walks detect cycles", "a name tree whose kid refers to an ancestor overflowed the stack in walk()"),
+ ("C14", "panic:pdf/src/crypt.rs:pdf::crypt::Rc4::new:assertion failed*", "reject encryption key lengths outside 40..128 bits", "/Length 0 in the encryption dictionary reached Rc4::new with an empty key"),
+ ("C14", "panic:pdf/src/encoding.rs:*attempt to add with overflow", "/Differences with an extreme code no longer overflows", "/Differences [-1 /a /b] overflowed the running code"),
+ ("C14", "crash:signal6:stack-overflow (appearance dictionary)", "appearance dictionaries that refer to themselves", "<< /Off 31 0 R >> stored as object 31 recursed without bound in AppearanceStreamEntry"),
+ ("C14", "crash:signal6:allocation-failure (xref stream /W [0 0 0])", "an xref stream with /W [0 0 0] cannot declare entries without data", "/W [0 0 0] /Index [0 2147483647] built two billion entries before the /Size limit was checked"),
+ ("C14", "panic:core/src/num/f32.rs:pdf::object::function::SampledFunctionInput::map:*", "a sampled function with a reversed or NaN /Domain", "f32::clamp panicked on /Domain [1 0]"),
+ ("C14", "panic:pdf/src/crypt.rs:pdf::crypt::Decoder::from_password:attempt to multiply with overflow", "a huge crypt filter /Length no longer overflows", "CF /Length 4294967295 overflowed in 8 * n"),
 ]
 OPEN = [
  ("C12", "gate:xref-stream-of-encrypted-file", "reading the cross-reference stream object of an encrypted file (Stream::data / resolve) decrypts it although cross-reference streams are never encrypted; with a stream cache the right data is returned because loading cached it before the decoder existed, without one the call fails ('can't inflate'), so the caches are visible for that one object; a repair needs the xref-stream object ids to be carried out of the xref reader (public signatures change), so it is recorded"),
